@@ -24,9 +24,14 @@ const (
 	avg    = 1
 	burst  = 2
 	ttlSec = 11 // 10*floor(period)+1
+	// the "long" rate a request may name when the limiter extracts rates per request: same sustained rate, TTL 31s
+	longPeriod = 3 * time.Second
+	longAvg    = 3
+	longTTLSec = 31
 )
 
 type sys struct {
+	varRates bool // the limiter is built with ExtractRates: every request names its own rate set (and thereby its TTL)
 	capacity int
 	shared   *ratelimit.TokenLimiter
 	shadow   map[string]*ratelimit.TokenLimiter
@@ -50,6 +55,17 @@ func (s *sys) newLimiter(capacity int) *ratelimit.TokenLimiter {
 	if capacity > 0 {
 		opts = append(opts, ratelimit.Capacity(capacity))
 	}
+	if s.varRates {
+		opts = append(opts, ratelimit.ExtractRates(ratelimit.RateExtractorFunc(func(r *http.Request) (*ratelimit.RateSet, error) {
+			x := ratelimit.NewRateSet()
+			if r.Header.Get("Rate") == "long" {
+				x.Add(longPeriod, longAvg, burst)
+			} else {
+				x.Add(period, avg, burst)
+			}
+			return x, nil
+		})))
+	}
 	tl, err := ratelimit.New(http.HandlerFunc(func(w http.ResponseWriter, r *http.Request) {
 		s.served++
 		w.WriteHeader(200)
@@ -62,9 +78,9 @@ func (s *sys) newLimiter(capacity int) *ratelimit.TokenLimiter {
 
 var base = clock.Date(2012, 3, 4, 5, 6, 7, 300_000_000, clock.UTC)
 
-func newSys(capacity int) *sys {
+func newSys(capacity int, varRates bool) *sys {
 	clock.Freeze(base)
-	s := &sys{capacity: capacity, shadow: map[string]*ratelimit.TokenLimiter{}, expiry: map[string]int64{}}
+	s := &sys{capacity: capacity, varRates: varRates, shadow: map[string]*ratelimit.TokenLimiter{}, expiry: map[string]int64{}}
 	s.shared = s.newLimiter(capacity)
 	for _, src := range sources {
 		s.shadow[src] = s.newLimiter(0)
@@ -72,12 +88,13 @@ func newSys(capacity int) *sys {
 	return s
 }
 
-func (s *sys) do(tl *ratelimit.TokenLimiter, src string, amount int64) string {
+func (s *sys) do(tl *ratelimit.TokenLimiter, src string, amount int64, rate string) string {
 	before := s.served
 	rec := httptest.NewRecorder()
 	req := httptest.NewRequest("GET", "http://x/", nil)
 	req.Header.Set("Source", src)
 	req.Header.Set("Amount", fmt.Sprint(amount))
+	req.Header.Set("Rate", rate)
 	tl.ServeHTTP(rec, req)
 	return fmt.Sprintf("%d/%s/%v", rec.Code, rec.Header().Get("X-Retry-In"), s.served > before)
 }
@@ -101,6 +118,22 @@ type opDesc struct {
 	src    string
 	amount int64
 	d      time.Duration
+	rate   string
+}
+
+// alphabetVar: requests name their rate set; a refresh with the short rate SHORTENS the lifetime of an entry.
+func alphabetVar() ([]string, []opDesc) {
+	var names []string
+	var descs []opDesc
+	for _, x := range []struct{ src, rate string }{{"a", "short"}, {"a", "long"}, {"b", "short"}, {"b", "long"}, {"c", "short"}} {
+		names = append(names, fmt.Sprintf("Req(%s,1,%s)", x.src, x.rate))
+		descs = append(descs, opDesc{0, x.src, 1, 0, x.rate})
+	}
+	for _, d := range []time.Duration{time.Second, 12 * time.Second} {
+		names = append(names, fmt.Sprintf("Advance(%v)", d))
+		descs = append(descs, opDesc{1, "", 0, d, ""})
+	}
+	return names, descs
 }
 
 func alphabet() ([]string, []opDesc) {
@@ -108,22 +141,22 @@ func alphabet() ([]string, []opDesc) {
 	var descs []opDesc
 	for _, src := range sources {
 		names = append(names, fmt.Sprintf("Req(%s,1)", src))
-		descs = append(descs, opDesc{0, src, 1, 0})
+		descs = append(descs, opDesc{0, src, 1, 0, ""})
 	}
 	for _, d := range []time.Duration{time.Second, 500 * time.Millisecond, 10500 * time.Millisecond, 12 * time.Second} {
 		names = append(names, fmt.Sprintf("Advance(%v)", d))
-		descs = append(descs, opDesc{1, "", 0, d})
+		descs = append(descs, opDesc{1, "", 0, d, ""})
 	}
 	for _, src := range sources[:2] {
 		names = append(names, fmt.Sprintf("Req(%s,2)", src))
-		descs = append(descs, opDesc{0, src, 2, 0})
+		descs = append(descs, opDesc{0, src, 2, 0, ""})
 	}
 	return names, descs
 }
 
 // step applies a request to the shared limiter and the source's shadow and
 // evaluates the independence oracle. Returns the observation and a violation (key, detail) if any.
-func (s *sys) step(src string, amount int64) (string, string, string) {
+func (s *sys) step(src string, amount int64, rate string) (string, string, string) {
 	now := clock.Now().Unix()
 	before, ok := s.tracked()
 	if !ok {
@@ -143,7 +176,7 @@ func (s *sys) step(src string, amount int64) (string, string, string) {
 		capacity = ratelimit.DefaultCapacity
 	}
 	needEvict := !selfLive && len(s.expiry) >= capacity
-	got := s.do(s.shared, src, amount)
+	got := s.do(s.shared, src, amount, rate)
 	after, _ := s.tracked()
 	afterSet := map[string]bool{}
 	for _, k := range after {
@@ -185,25 +218,34 @@ func (s *sys) step(src string, amount int64) (string, string, string) {
 	} else if len(removed) != 0 {
 		return obs, "C14:spurious-forget", fmt.Sprintf("within capacity %d, request from %s made the limiter forget %v", capacity, src, removed)
 	}
-	s.expiry[src] = clock.Now().Add(ttlSec * time.Second).Unix()
-	want := s.do(s.shadow[src], src, amount)
+	ttl := ttlSec
+	if s.varRates && rate == "long" {
+		ttl = longTTLSec
+	}
+	s.expiry[src] = clock.Now().Add(time.Duration(ttl) * time.Second).Unix()
+	want := s.do(s.shadow[src], src, amount, rate)
 	if got != want {
 		return obs, "C14:decision-depends-on-other-sources", fmt.Sprintf("source %s amount %d: shared limiter answered %s, the same source alone gets %s", src, amount, got, want)
 	}
 	return obs, "", ""
 }
 
-func model(capacity, depth int) *lib.Model[*sys] {
+func model(capacity, depth int, varRates bool) *lib.Model[*sys] {
 	names, descs := alphabet()
-	m := &lib.Model[*sys]{Name: fmt.Sprintf("independence/capacity=%d", capacity), Ops: names, MaxDepth: depth, Deadline: lib.Deadline}
-	m.New = func() *sys { return newSys(capacity) }
+	name := fmt.Sprintf("independence/capacity=%d", capacity)
+	if varRates {
+		names, descs = alphabetVar()
+		name += "/per-request-rates"
+	}
+	m := &lib.Model[*sys]{Name: name, Ops: names, MaxDepth: depth, Deadline: lib.Deadline}
+	m.New = func() *sys { return newSys(capacity, varRates) }
 	m.Apply = func(s *sys, op int) string {
 		d := descs[op]
 		if d.kind == 1 {
 			clock.Advance(d.d)
 			return ""
 		}
-		obs, key, detail := s.step(d.src, d.amount)
+		obs, key, detail := s.step(d.src, d.amount, d.rate)
 		if key != "" {
 			return obs + " !!" + key + "!!" + detail
 		}
@@ -225,6 +267,9 @@ func model(capacity, depth int) *lib.Model[*sys] {
 			return
 		}
 		rep.Count("requests")
+		if varRates {
+			rep.Count("requests_naming_their_rate")
+		}
 		if strings.HasPrefix(o, "429") {
 			rep.Count("rejections")
 		}
@@ -237,8 +282,12 @@ func model(capacity, depth int) *lib.Model[*sys] {
 				rep.DistrustF("%s", p[1])
 				return
 			}
-			rep.Violate(fmt.Sprintf("%s:capacity=%d", p[0], capacity), p[1],
-				map[string]any{"engine": "xstate", "part": "c14", "capacity": capacity, "ops": m.OpNames(hist), "observations": obs})
+			vk := fmt.Sprintf("%s:capacity=%d", p[0], capacity)
+			if varRates {
+				vk += ":per-request-rates"
+			}
+			rep.Violate(vk, p[1],
+				map[string]any{"engine": "xstate", "part": "c14", "capacity": capacity, "var_rates": varRates, "ops": m.OpNames(hist), "observations": obs})
 		}
 	}
 	return m
@@ -252,15 +301,24 @@ func Run(tier string, sh lib.Shard, rep *lib.Report) {
 	}
 	rep.Bounds["history_depth"] = depth
 	rep.Bounds["capacities"] = []int{1, 2, 3, 0}
-	rep.Bounds["rate"] = "1s: average 1, burst 2 (TTL 11s)"
+	rep.Bounds["rate"] = "1s: average 1, burst 2 (TTL 11s); per-request-rates variants (capacity 1, 2): each request names 1s:1/2 (TTL 11s) or 3s:3/2 (TTL 31s)"
 	rep.Rule = "BFS over all histories (exact keys, depth-bounded) of Req(source in {a,b,c}, amount)/Advance on a shared real TokenLimiter and one solo-shadow real limiter per source; every decision must equal the shadow's; beyond capacity exactly one admissible victim (expired, else minimal expiry; read from private state) is forgotten and only its shadow is reset; non-trivial = requests made while several sources are tracked"
-	rep.Require("requests", "rejections", "requests_with_several_tracked_sources", "evictions_observed")
+	rep.Require("requests", "rejections", "requests_with_several_tracked_sources", "evictions_observed", "per_request_rate_models")
 	for _, capacity := range []int{1, 2, 3, 0} {
-		m := model(capacity, depth)
+		m := model(capacity, depth, false)
 		m.Shard, m.ShardLevel = sh, 2
 		evictionCounter(m, rep)
 		r := m.Run(rep)
 		rep.Sample(4, map[string]any{"model": m.Name, "result": r.Describe()})
+	}
+	// per-request rate sets (ExtractRates): the same source's entry lifetime grows AND shrinks between requests
+	for _, capacity := range []int{1, 2} {
+		m := model(capacity, depth, true)
+		m.Shard, m.ShardLevel = sh, 2
+		evictionCounter(m, rep)
+		r := m.Run(rep)
+		rep.Sample(4, map[string]any{"model": m.Name, "result": r.Describe()})
+		rep.Count("per_request_rate_models")
 	}
 	rep.Nontrivial = rep.Counters["requests_with_several_tracked_sources"]
 }
@@ -295,7 +353,7 @@ func trackedOf(obs []string) string {
 }
 
 func Replay(rp map[string]any) (bool, string) {
-	m := model(int(rp["capacity"].(float64)), 0)
+	m := model(int(rp["capacity"].(float64)), 0, rp["var_rates"] == true)
 	hist, err := m.ParseOps(rp["ops"])
 	if err != nil {
 		return false, err.Error()
